@@ -39,7 +39,7 @@ def bamTp (a : Node) (m : Msg) (seq t : Nat) : Nat → TpDev :=
 
 /-- **the sender polls when the 50 ms pacing timer is due**: exactly one data packet; after the last one the transfer is over -/
 theorem poll_bam (a : Node) (d : Dev) (m : Msg) (seq t0 : Nat) (sl : List Slot) (out : List Delivery)
-    (hd : a.s.devs = [d]) (hq : Quiet a.s 0) (hi : InfoIdle a 0) (hm : m.dst = 255) (hp0 : m.pgn ≠ 0) (hlen : m.len ≤ 223)
+    (hd : Lead a d) (hq : Quiet a.s 0) (hi : InfoIdle a 0) (hm : m.dst = 255) (hp0 : m.pgn ≠ 0) (hlen : m.len ≤ 223)
     (hdue : t0 + 51 ≤ a.s.now ∧ a.s.now < t0 + 50 + INT32_MAX) (h64 : a.s.now + 100 < M64)
     (hseq : seq < tpPacketCount m.len) :
     poll (a.upd (txTp a m seq t0 50) sl out [] []) =
@@ -47,8 +47,8 @@ theorem poll_bam (a : Node) (d : Dev) (m : Msg) (seq t0 : Nat) (sl : List Slot) 
   have hpc := tpPacketCount_le m.len hlen
   generalize hN : a.upd (txTp a m seq t0 50) sl out [] [] = N
   have hNq : Quiet N.s 0 := by subst hN; exact upd_quiet _ _ _ _ _ _ hq
-  have hNd : N.s.devs = [d] := by subst hN; exact hd
-  have hNd0 : N.s.devs[0]? = some d := by rw [hNd]; rfl
+  have hNd : Lead N d := by subst hN; exact hd.upd _ _ _ _ _ (fun k hk => by simp [txTp, Nat.ne_of_gt hk, hd.others k hk])
+  have hNd0 : N.s.devs[0]? = some d := hNd.dev0
   have hNt : (N.tp 0).timer.isTime N.s.flavor N.s.now = true := by
     subst hN
     simp only [upd_tp, txTp, ↓reduceIte, upd_flavor, upd_now]
@@ -84,7 +84,7 @@ theorem poll_bam (a : Node) (d : Dev) (m : Msg) (seq t0 : Nat) (sl : List Slot) 
   have hres : ∀ X : Node, X = a.upd (bamTp a m seq a.s.now) sl out [dtFrame d.source m seq] [] →
       claimTick { X with rxq := [] } = a.upd (bamTp a m seq a.s.now) sl out [dtFrame d.source m seq] [] := by
     intro X hX; subst hX
-    exact claimTick_solo _ d hd (upd_quiet _ _ _ _ _ _ hq)
+    exact claimTick_lead _ hd.claims
   apply hres
   unfold bamTp
   by_cases hall : tpPacketCount m.len ≤ seq + 1
@@ -175,7 +175,7 @@ theorem rxB_last (mt k : Nat) (out : List Delivery) (fs rxq : List Frame) (hsrc 
   simp only [sessB, bamSlot, startSlot] at e1 ⊢
   simp [e1, delivered]
 
-variable (hd : b.s.devs = [db]) (hq : Quiet b.s 0) (hnotp : (b.tp 0).hasPending = false) (hib : InfoIdle b 0)
+variable (hd : Lead b db) (hq : Quiet b.s 0) (hnotp : (b.tp 0).hasPending = false) (hib : InfoIdle b 0)
 include hd hq hnotp hib
 
 /-- the listening node polls with the BAM announce in its queue -/
@@ -187,7 +187,7 @@ theorem poll_bam_announce (hsrc : srcA < 256) (hlen : m.len ≤ 223) (hpgn : m.p
       rcvB b m srcA j S' a0 (millis32 b.s.now) [] 0 [] [] := by
   generalize hN : b.upd b.tp b.slots [] [] [cmFrame srcA 255 (announceBytes 32 m)] = N
   have hNq : Quiet N.s 0 := by subst hN; exact upd_quiet _ _ _ _ _ _ hq
-  have hNd : N.s.devs = [db] := by subst hN; exact hd
+  have hNd : Lead N db := by subst hN; exact hd.same _ _ _ _
   rw [poll_solo N db hNd hNq (by subst hN; exact hib) (fun h => by subst hN; simp [hnotp] at h) (by subst hN; simp)]
   have hrx : N.rxq = [cmIn srcA 255 (announceBytes 32 m)] := by subst hN; rfl
   rw [hrx]
@@ -210,7 +210,7 @@ theorem poll_bam_announce (hsrc : srcA < 256) (hlen : m.len ≤ 223) (hpgn : m.p
   have hres : ∀ X : Node, X = rcvB b m srcA j S' a0 (millis32 b.s.now) [] 0 [] [cmFrame srcA 255 (announceBytes 32 m)] →
       claimTick { X with rxq := [] } = rcvB b m srcA j S' a0 (millis32 b.s.now) [] 0 [] [] := by
     intro X hX; subst hX
-    exact claimTick_solo _ db hd (upd_quiet _ _ _ _ _ _ hq)
+    exact claimTick_lead _ hd.claims
   apply hres
   rfl
 
@@ -219,21 +219,21 @@ theorem poll_bam_mid (mt k : Nat) (hsrc : srcA < 256) (hdst : m.dst = 255)
     (hnone : findIdx (sessOf srcA 255) S' = none) (hj : j < S'.length) (hreq : a0.reqCTS = 0)
     (hk : 7 * (k + 1) < m.len) (hlen : m.len ≤ 223) :
     poll (rcvB b m srcA j S' a0 mt [] k [] [dtFrame srcA m k]) = rcvB b m srcA j S' a0 (millis32 b.s.now) [] (k + 1) [] [] := by
-  have hNd : (rcvB b m srcA j S' a0 mt [] k [] [dtFrame srcA m k]).s.devs = [db] := hd
+  have hNd : Lead (rcvB b m srcA j S' a0 mt [] k [] [dtFrame srcA m k]) db := hd.same _ _ _ _
   have hNq : Quiet (rcvB b m srcA j S' a0 mt [] k [] [dtFrame srcA m k]).s 0 := upd_quiet _ _ _ _ _ _ hq
   rw [poll_solo _ db hNd hNq hib (fun h => by simp [rcvB, hnotp] at h) (by simp [rcvB])]
   have hrxq : (rcvB b m srcA j S' a0 mt [] k [] [dtFrame srcA m k]).rxq = [dtFrame srcA m k] := rfl
   rw [hrxq]
   simp only [rxList, List.foldl_cons, List.foldl_nil]
   rw [rxB_mid b m srcA j S' a0 mt k [] [] _ hsrc hdst hnone hj hreq hk hlen]
-  exact claimTick_solo _ db hd (upd_quiet _ _ _ _ _ _ hq)
+  exact claimTick_lead _ hd.claims
 
 /-- the listening node polls with the last BAM data packet in its queue: exactly one delivery -/
 theorem poll_bam_last (mt k : Nat) (hsrc : srcA < 256) (hdst : m.dst = 255)
     (hnone : findIdx (sessOf srcA 255) S' = none) (hj : j < S'.length) (hreq : a0.reqCTS = 0)
     (hk : m.len ≤ 7 * (k + 1)) (hk' : 7 * k < m.len) (hlen : m.len ≤ 223) (hl : m.len ≤ m.data.length) :
     ∃ S'', poll (rcvB b m srcA j S' a0 mt [] k [] [dtFrame srcA m k]) = b.upd b.tp S'' [delivered m srcA 255] [] [] := by
-  have hNd : (rcvB b m srcA j S' a0 mt [] k [] [dtFrame srcA m k]).s.devs = [db] := hd
+  have hNd : Lead (rcvB b m srcA j S' a0 mt [] k [] [dtFrame srcA m k]) db := hd.same _ _ _ _
   have hNq : Quiet (rcvB b m srcA j S' a0 mt [] k [] [dtFrame srcA m k]).s 0 := upd_quiet _ _ _ _ _ _ hq
   rw [poll_solo _ db hNd hNq hib (fun h => by simp [rcvB, hnotp] at h) (by simp [rcvB])]
   have hrxq : (rcvB b m srcA j S' a0 mt [] k [] [dtFrame srcA m k]).rxq = [dtFrame srcA m k] := rfl
@@ -242,7 +242,7 @@ theorem poll_bam_last (mt k : Nat) (hsrc : srcA < 256) (hdst : m.dst = 255)
   obtain ⟨S'', hS⟩ := rxB_last b m srcA j S' a0 mt k [] [] [dtFrame srcA m k] hsrc hdst hnone hj hreq hk hk' hlen hl
   rw [hS]
   refine ⟨S'', ?_⟩
-  exact claimTick_solo _ db hd (upd_quiet _ _ _ _ _ _ hq)
+  exact claimTick_lead _ hd.claims
 
 end
 
@@ -274,8 +274,8 @@ section
 variable (a b : Node) (da db : Dev) (m : Msg) (j : Nat) (S' : List Slot) (a0 : Slot)
 
 structure BamHyp : Prop where
-  devA : a.s.devs = [da]
-  devB : b.s.devs = [db]
+  devA : Lead a da
+  devB : Lead b db
   qa : Quiet a.s 0
   qb : Quiet b.s 0
   bIdle : (b.tp 0).hasPending = false
@@ -296,8 +296,7 @@ structure BamHyp : Prop where
 variable {a b da db m j S' a0}
 
 theorem BamHyp.srcA (h : BamHyp a b da db m j S' a0) : da.source ≤ 251 := by
-  obtain ⟨d', hd', hs, _⟩ := h.qa.dev
-  rw [h.devA] at hd'; simp at hd'; subst hd'; exact hs
+  exact h.devA.src h.qa
 
 theorem BamHyp.none (h : BamHyp a b da db m j S' a0) : findIdx (sessOf da.source 255) S' = none := by
   rw [h.hS]
@@ -324,13 +323,13 @@ theorem roundB_first (h : BamHyp a b da db m j S' a0) (tA tB dB dA : Nat) (hdA :
   have hnp : 2 ≤ tpPacketCount m.len := by have := h.len9; unfold tpPacketCount; omega
   unfold round
   simp only [wire_upd, List.nil_append, advance_upd]
-  have hp := poll_bam_announce (atTime b (tB + dB)) db m da.source j S' a0 h.devB (atTime_quiet _ h.qb) h.bIdle h.bInfo (by omega) h.len223
+  have hp := poll_bam_announce (atTime b (tB + dB)) db m da.source j S' a0 (h.devB.atTime _) (atTime_quiet _ h.qb) h.bIdle h.bInfo (by omega) h.len223
     h.pgn24 h.known h.hS h.hj h.ha0
   rw [show (atTime b (tB + dB)).tp = b.tp from rfl, show (atTime b (tB + dB)).slots = b.slots from rfl] at hp
   rw [hp]
   unfold rcvB
   simp only [wire_upd, List.append_nil, advance_upd]
-  have hc := poll_bam (atTime a (tA + dA)) da m 0 tA a.slots a.out h.devA (atTime_quiet _ h.qa) h.aInfo h.mdst h.pgn0 h.len223
+  have hc := poll_bam (atTime a (tA + dA)) da m 0 tA a.slots a.out (h.devA.atTime _) (atTime_quiet _ h.qa) h.aInfo h.mdst h.pgn0 h.len223
     ⟨by show tA + 51 ≤ tA + dA; omega, by show tA + dA < tA + 50 + INT32_MAX; omega⟩ (by show tA + dA + 100 < M64; exact h64) (by omega)
   rw [txTp_atTime, bamTp_atTime] at hc
   rw [hc]
@@ -345,7 +344,7 @@ theorem roundB_mid (h : BamHyp a b da db m j S' a0) (k tA tB mt dB dA : Nat) (hk
   have htight := tpPacketCount_tight m.len (by have := h.len9; omega)
   unfold round sndB rcvB
   simp only [wire_upd, List.nil_append, advance_upd]
-  have hp := poll_bam_mid (atTime b (tB + dB)) db m da.source j S' a0 h.devB (atTime_quiet _ h.qb) h.bIdle h.bInfo mt k (by omega) h.mdst h.none
+  have hp := poll_bam_mid (atTime b (tB + dB)) db m da.source j S' a0 (h.devB.atTime _) (atTime_quiet _ h.qb) h.bIdle h.bInfo mt k (by omega) h.mdst h.none
     h.jlt h.hreq (by omega) h.len223
   unfold rcvB at hp
   rw [show (atTime b (tB + dB)).tp = b.tp from rfl] at hp
@@ -354,7 +353,7 @@ theorem roundB_mid (h : BamHyp a b da db m j S' a0) (k tA tB mt dB dA : Nat) (hk
   simp only [wire_upd, List.append_nil, advance_upd]
   have hbt : bamTp a m k tA = txTp a m (k + 1) tA 50 := by unfold bamTp; rw [if_pos hk]
   rw [hbt]
-  have hc := poll_bam (atTime a (tA + dA)) da m (k + 1) tA a.slots a.out h.devA (atTime_quiet _ h.qa) h.aInfo h.mdst h.pgn0 h.len223
+  have hc := poll_bam (atTime a (tA + dA)) da m (k + 1) tA a.slots a.out (h.devA.atTime _) (atTime_quiet _ h.qa) h.aInfo h.mdst h.pgn0 h.len223
     ⟨by show tA + 51 ≤ tA + dA; omega, by show tA + dA < tA + 50 + INT32_MAX; omega⟩ (by show tA + dA + 100 < M64; exact h64) hk
   rw [txTp_atTime, bamTp_atTime] at hc
   rw [hc]
@@ -370,7 +369,7 @@ theorem roundB_last (h : BamHyp a b da db m j S' a0) (k tA tB mt dB dA : Nat) (h
   have hcov := tpPacketCount_cover m.len
   unfold round sndB rcvB
   simp only [wire_upd, List.nil_append, advance_upd]
-  obtain ⟨S'', hp⟩ := poll_bam_last (atTime b (tB + dB)) db m da.source j S' a0 h.devB (atTime_quiet _ h.qb) h.bIdle h.bInfo mt k (by omega) h.mdst
+  obtain ⟨S'', hp⟩ := poll_bam_last (atTime b (tB + dB)) db m da.source j S' a0 (h.devB.atTime _) (atTime_quiet _ h.qb) h.bIdle h.bInfo mt k (by omega) h.mdst
     h.none h.jlt h.hreq (by omega) (by omega) h.len223 h.hdata
   unfold rcvB at hp
   rw [show (atTime b (tB + dB)).tp = b.tp from rfl] at hp
@@ -380,7 +379,7 @@ theorem roundB_last (h : BamHyp a b da db m j S' a0) (k tA tB mt dB dA : Nat) (h
   simp only [wire_upd, List.append_nil, advance_upd]
   have hbt : bamTp a m k tA = doneTp a m (tpPacketCount m.len) := by unfold bamTp; rw [if_neg (by omega), hk]
   rw [hbt]
-  have hidle := poll_idle ((atTime a (tA + dA)).upd (doneTp a m (tpPacketCount m.len)) a.slots a.out [] []) da h.devA
+  have hidle := poll_idle ((atTime a (tA + dA)).upd (doneTp a m (tpPacketCount m.len)) a.slots a.out [] []) da ((h.devA.atTime _).upd _ _ _ _ _ (fun k hk => by simp [doneTp, Nat.ne_of_gt hk, h.devA.others k hk]))
     (upd_quiet _ _ _ _ _ _ (atTime_quiet _ h.qa)) h.aInfo (fun hh => by simp [doneTp] at hh) rfl
   rw [hidle]
 
